@@ -35,7 +35,7 @@ def doc_of(scen):
 def read_job_matrix(text):
     rows = []
     for line in text.split("\n"):
-        line = line.replace(" ", "")
+        line = "".join(line.split())     # blanks, and the tabs the validator lets through between groups
         if not line.startswith("j") or "|" not in line:
             continue
         body = line.split("|", 1)[1]
